@@ -166,26 +166,54 @@ def ob_extra_arg(v: int, s: str) -> bool:
     return check(bool(out.is_error) and get_raises and CALLS == [])
 
 
-def ob_missing_resource(with_cache: bool, v: int) -> bool:
+def ob_missing_resource(with_cache: bool, v: int, kind: int) -> bool:
     """
-    pre: -9 <= v <= 9
+    pre: 0 <= v <= 9 and kind == part("kind")
     post: _
     """
     store = MemoryStore()
+    kind = pick(kind, 3)
+    target = ["missing", "dir", "dir/nodata.txt"][kind]      # no such key / a directory / a key with metadata but no data
     with quiet():
         store.store("present", b"x", dict(n=v))
+        store.store("dir/file.txt", b"y", dict(n=v))
+        store.store_metadata("dir/nodata.txt", dict(title="t", n=v))
     cache = MemoryCache() if with_cache else NoCache()
     ctx = HContext(cache, {}, store=store)
     try:
         with quiet():
-            out = ctx.evaluate("-R/missing")
+            out = ctx.evaluate("-R/" + target)
     except Exception:
         return check(True, "raised")
     info, exc, get_raises = _errinfo(out)
-    ok = bool(out.is_error) and get_raises and cache.get("-R/missing") is None
+    ok = bool(out.is_error) and get_raises and cache.get("-R/" + target) is None
     with quiet():
         ok2 = HContext(NoCache(), {}, store=store).evaluate("-R/present")
     return check(ok and not ok2.is_error and ok2.get() == b"x")
+
+
+def ob_store_unwritable(v: int, with_cache: bool) -> bool:
+    """
+    pre: 0 <= v <= 9
+    post: _
+    """
+    # saving a result under a key whose extension its state type cannot write is a failure of the evaluation: it must not look normal
+    store = MemoryStore()
+    cache = MemoryCache() if with_cache else NoCache()
+    ctx = HContext(cache, {"p": mkstate("p", v)}, store=store)      # an int result ...
+    try:
+        with quiet():
+            out = ctx.evaluate("p/v.png", store_key="res/v.png")     # ... asked for as a .png (its state type cannot write that)
+    except Exception:
+        return check(True, "raised")
+    info, exc, get_raises = _errinfo(out)
+    ok = bool(out.is_error) and get_raises and out.metadata.get("status") == "error"
+    try:
+        store.get_bytes("res/v.png")
+        ok = False                      # no data may be filed under the key
+    except Exception:
+        pass
+    return check(ok, "error-state")
 
 
 QPOOL = ["a/b", "x", None]
@@ -232,7 +260,10 @@ def obligations(tier):
     for n, small in ([(0, True), (1, True)] if q else [(0, True), (1, False), (2, True)]):
         obs.append(Ob("ob_extra_arg", dict(n=n, small=small), timeout=300 if q else 3000, per_path=60, twin_timeout=60,
                       bounds="(b) p/addn with a free symbolic extra argument |s|=%d over %s (convertible or not)" % (n, "the alphabet '059+-_ a.'" if small else "printable ASCII")))
-    obs.append(Ob("ob_missing_resource", {}, timeout=t, per_path=60, twin_timeout=60, bounds="(b) -R/missing against a MemoryStore through the real evaluate_resource"))
+    obs.append(Ob("ob_store_unwritable", {}, timeout=t, per_path=60, twin_timeout=60, bounds="(b) result saved under store_key with an extension its state type cannot write (int -> .png)"))
+    for k in range(3):
+        obs.append(Ob("ob_missing_resource", dict(kind=k), timeout=t, per_path=60, twin_timeout=60,
+                      bounds="(b) resource that %s, against a MemoryStore through the real evaluate_resource" % ["is missing", "is a directory", "has metadata but no data"][k]))
     for n in ([1, 2] if q else [1, 2, 3]):
         obs.append(Ob("ob_state_get", dict(n=n), timeout=t if q else 1800, per_path=30, bounds="(d) error log of length %d, kinds {info,warning,error} x offsets 0..9 x 3 queries" % n))
     return obs
